@@ -37,16 +37,17 @@ func factsStore() {
 		if !strings.Contains(txt, "metadata, vertex.Level())") {
 			level, why = false, fn+": re-insert not at vertex.Level()"
 		}
-		// order: GetVertex, Remove, merge, Insert
+		// order: GetVertex, merge (old keys under the incoming ones), Remove, Insert — the merge reads the vertex fetched
+		// before the removal, so it may come before or after Remove
 		g, r, i := strings.Index(txt, "this.index.GetVertex(id)"), strings.Index(txt, "this.index.Remove(id)"), strings.Index(txt, "this.index.Insert(id,")
-		if !(g >= 0 && g < r && r < mi && mi < i) {
-			merge, why = false, fn+": GetVertex/Remove/merge/Insert order changed"
+		if !(g >= 0 && g < r && g < mi && mi < i && r < i) {
+			merge, why = false, fn+": GetVertex/merge/Remove/Insert order changed"
 		}
 	}
 	if why != "" && !merge {
 		unrec("update_merge_keeps_old", "bool", why)
 	} else {
-		known("update_merge_keeps_old", "bool", b(merge), "updateValue/batchUpdateValue: GetVertex; Remove; old keys copied under the incoming ones; Insert")
+		known("update_merge_keeps_old", "bool", b(merge), "updateValue/batchUpdateValue: GetVertex; old keys copied under the incoming ones; Remove; Insert")
 	}
 	known("update_allocates_nil_map", "bool", b(alloc), "incoming nil metadata map is allocated before the merge writes into it")
 	if level {
